@@ -49,6 +49,8 @@ impl Diagnostic {
         lookup: &line_col::LineColLookup,
         e: ParseError,
     ) -> Option<Diagnostic> {
+        #[cfg(feature = "verif-hooks")]
+        verif_record_expected(&e);
         match e {
             lalrpop_util::ParseError::InvalidToken { location } => Some(Diagnostic {
                 kind: DiagnosticKind::Error,
@@ -103,4 +105,31 @@ fn expected_token_str(v: &[String]) -> String {
             v[v.len() - 1]
         ),
     }
+}
+
+#[cfg(feature = "verif-hooks")]
+thread_local! {
+    static VERIF_EXPECTED: std::cell::RefCell<Vec<Vec<String>>> = std::cell::RefCell::new(Vec::new());
+}
+
+/// Verification hook: record the raw expectation vector of each parse error handed to the formatter
+#[cfg(feature = "verif-hooks")]
+fn verif_record_expected(e: &ParseError) {
+    let v = match e {
+        lalrpop_util::ParseError::UnrecognizedEOF { expected, .. } => Some(expected.clone()),
+        lalrpop_util::ParseError::UnrecognizedToken { expected, .. } => Some(expected.clone()),
+        lalrpop_util::ParseError::InvalidToken { .. } => Some(Vec::new()),
+        lalrpop_util::ParseError::ExtraToken { .. } => Some(Vec::new()),
+        lalrpop_util::ParseError::User { .. } => None,
+    };
+    if let Some(v) = v {
+        VERIF_EXPECTED.with(|r| r.borrow_mut().push(v));
+    }
+}
+
+/// Verification hook: take (and clear) the expectation vectors recorded on this thread, one per
+/// syntax diagnostic created since the last call, in creation order
+#[cfg(feature = "verif-hooks")]
+pub fn verif_take_expected() -> Vec<Vec<String>> {
+    VERIF_EXPECTED.with(|r| std::mem::take(&mut *r.borrow_mut()))
 }
